@@ -2,6 +2,7 @@ import Pms.Gen.TimeCorr
 import Pms.Lemmas.TimeCorr
 import Mathlib.Data.Complex.BigOperators
 import Mathlib.Tactic.LinearCombination
+import Mathlib.Algebra.Order.BigOperators.Group.Finset
 
 /-!
 # C14 — `time_correlation` equals the origin-averaged normalised autocorrelation
@@ -185,6 +186,58 @@ theorem C14_lag0_is_one [DecidableEq K] (ts : ℕ → K) (T L N d1 d2 : ℕ) (A 
 
 /-- the hypothesis of `C14_lag0_is_one` is satisfiable: one particle with value 1 in a single frame -/
 example : lag0 (α := ℚ) false 2 1 1 1 1 (fun _ _ _ _ => ⟨1, 0⟩) ≠ 0 := by
+  decide +kernel
+
+/-- **when is the lag-0 sum zero?**  Over an ordered field (ℝ), for scalar and vector series the lag-0 sum is a sum of
+squares: it is non-negative, and it vanishes exactly when every value in the contributing frames (all frames when
+evenly spaced, the first frame otherwise) is zero — the only inputs on which the routine divides by zero. -/
+theorem C14_lag0_zero_iff {F : Type} [Field F] [LinearOrder F] [IsStrictOrderedRing F]
+    (even : Bool) (L T N d1 d2 : ℕ) (A : Series F) (hL : L ≠ 4) :
+    0 ≤ lag0 even L T N d1 d2 A ∧
+    (lag0 even L T N d1 d2 A = 0 ↔
+      ∀ t < (if even then T else 1), ∀ i < N, ∀ a < d1, ∀ b < d2, (A t i a b).re = 0 ∧ (A t i a b).im = 0) := by
+  have hterm : ∀ t i a b, 0 ≤ (A t i a b).re * (A t i a b).re + (A t i a b).im * (A t i a b).im :=
+    fun t i a b => add_nonneg (mul_self_nonneg _) (mul_self_nonneg _)
+  have hpair : ∀ t, pair L N d1 d2 A t t = ∑ i ∈ range N, ∑ a ∈ range d1, ∑ b ∈ range d2,
+      ((A t i a b).re * (A t i a b).re + (A t i a b).im * (A t i a b).im) := by
+    intro t; rw [pair_eq]; simp only [if_neg hL]
+  have hnn : ∀ t, 0 ≤ pair L N d1 d2 A t t := fun t => by
+    rw [hpair]; exact Finset.sum_nonneg fun i _ => Finset.sum_nonneg fun a _ => Finset.sum_nonneg fun b _ => hterm t i a b
+  have hz : ∀ t, pair L N d1 d2 A t t = 0 ↔
+      ∀ i < N, ∀ a < d1, ∀ b < d2, (A t i a b).re = 0 ∧ (A t i a b).im = 0 := by
+    intro t
+    rw [hpair, Finset.sum_eq_zero_iff_of_nonneg
+      (fun i _ => Finset.sum_nonneg fun a _ => Finset.sum_nonneg fun b _ => hterm t i a b)]
+    refine forall_congr' fun i => ?_
+    rw [Finset.mem_range]
+    refine imp_congr_right fun _ => ?_
+    rw [Finset.sum_eq_zero_iff_of_nonneg (fun a _ => Finset.sum_nonneg fun b _ => hterm t i a b)]
+    refine forall_congr' fun a => ?_
+    rw [Finset.mem_range]
+    refine imp_congr_right fun _ => ?_
+    rw [Finset.sum_eq_zero_iff_of_nonneg (fun b _ => hterm t i a b)]
+    refine forall_congr' fun b => ?_
+    rw [Finset.mem_range]
+    refine imp_congr_right fun _ => ?_
+    exact mul_self_add_mul_self_eq_zero
+  unfold lag0
+  cases even
+  · simp only [Bool.false_eq_true, if_false]
+    refine ⟨hnn 0, ?_⟩
+    rw [hz 0]
+    constructor
+    · intro h t ht; have : t = 0 := by omega
+      subst this; exact h
+    · intro h; exact h 0 (by omega)
+  · simp only [if_true, sumRange_eq]
+    refine ⟨Finset.sum_nonneg fun t _ => hnn t, ?_⟩
+    rw [Finset.sum_eq_zero_iff_of_nonneg (fun t _ => hnn t)]
+    refine forall_congr' fun t => ?_
+    rw [Finset.mem_range]
+    exact imp_congr_right fun _ => hz t
+
+/-- for tensors the traced matrix product is not a norm: a non-zero nilpotent tensor has lag-0 sum 0 -/
+example : lag0 (α := ℚ) false 4 1 1 2 2 (fun _ _ a b => if a = 0 ∧ b = 1 then ⟨1, 0⟩ else ⟨0, 0⟩) = 0 := by
   decide +kernel
 
 /-! ## time axis -/
